@@ -26,6 +26,7 @@ type histCase struct {
 	Handles  []int             `json:"handles"` // handle index per step (0/1)
 	// script mode: several profile texts, named handles, an explicit sequence of compile / validate / validateCompiled
 	VaryCfg  bool              `json:"varyCfg"`
+	OnlyCfg  *string           `json:"onlyCfg"` // fresh validations under this configuration only
 	Profiles map[string]string `json:"profiles"`
 	Script   []histOp          `json:"script"`
 }
@@ -148,6 +149,9 @@ func runHistory(c histCase) histObs {
 		text := c.Docs[d]
 		for _, cn := range cfgNames {
 			if cn != "" && !c.VaryCfg {
+				continue
+			}
+			if c.OnlyCfg != nil && *c.OnlyCfg != cn {
 				continue
 			}
 			rc := cfgs[cn]
